@@ -16,7 +16,7 @@ RULE = ("histories of ~18 steps over 1-3 proxies and 1-5 concurrently open strea
         "{0,5} x ITER_STREAM_LINGER {0,3} x both server types. distinct = (history hash, step); non-trivial = the step concerns an open stream")
 ASSUMPTIONS = ["the virtual clock starts at 1e9 (a linger stamp of 0 means 'none' in Pyro's code)", "after every client-side disconnect / oneway close the harness waits for the server-side event (10 s watchdog, expiry = inconclusive)",
                "a stream whose deadline has passed may be forgotten at any time until the next explicit housekeeping step, after which it must be gone"]
-REQUIRED_REACH = ["reconnect_fetches_ok", "cross_thread_closes_ok", "connected_socket_streams_ok", "histories_with_failing_disconnect_hook", "items_ok", "stopiteration_ok", "generator_exception_ok", "forgotten_ok", "reconnect_continues", "linger_expired", "lifetime_expired", "table_checked", "streaming_disabled_ok", "racing_reconnects", "server_ended_connections", "housekeeping_during_fetch", "histories_under_one_correlation_id", "concurrent_streams_checked", "slow_item_streams_checked", "natural_housekeeping_ok"]
+REQUIRED_REACH = ["relayed_streams_ok", "reconnect_fetches_ok", "cross_thread_closes_ok", "connected_socket_streams_ok", "histories_with_failing_disconnect_hook", "items_ok", "stopiteration_ok", "generator_exception_ok", "forgotten_ok", "reconnect_continues", "linger_expired", "lifetime_expired", "table_checked", "streaming_disabled_ok", "racing_reconnects", "server_ended_connections", "housekeeping_during_fetch", "histories_under_one_correlation_id", "concurrent_streams_checked", "slow_item_streams_checked", "natural_housekeeping_ok"]
 SHARD_TIMEOUT = {"quick": 240, "thorough": 3000}
 
 
@@ -863,6 +863,74 @@ def reconnect_fetch_phase(fx, vclock, rec, r, cfg, n):
     d.streaming_responses.clear()
 
 
+def relay_phase(fx, rec, r, cfg, n):
+    """a relay: the served method obtains an item stream from ANOTHER Pyro object (its last outgoing call returns a remote iterator) and
+    returns a generator of its own over it. The caller's stream is the relay's generator: its items, in order, to the end - and the
+    daemon's table is empty afterwards"""
+    P = fx.P
+    d = fx.daemon
+    src_uri = fx.uri("src")
+
+    @P.server.expose
+    class Relay(object):
+        def relay(self, key, peek):
+            up = P.client.Proxy(src_uri)
+            up._pyroSerializer = cfg["serializer"]
+            it = up.open(key)
+            first = [next(it)] if peek else []
+
+            def g():
+                try:
+                    for x in first:
+                        yield ["relayed", x]
+                    for x in it:
+                        yield ["relayed", x]
+                finally:
+                    try:
+                        it.close()
+                    finally:
+                        up._pyroRelease()
+            return g()
+    if "relay" not in d.objectsById:
+        fx.register(Relay(), "relay")
+    for k in range(n):
+        key = "rl-%d" % r.randrange(10 ** 9)
+        nitems = r.choice([1, 3, 6])
+        peek = bool(k % 2)
+        SPECS[key] = ([[key, i] for i in range(nitems)], False, r.choice(["gen", "iterobj", "listiter"]))
+        pay = {"relay": True, "cfg": cfg, "nitems": nitems, "peek": peek}
+        rec.case(("relay", nitems, peek, cfg["servertype"], k), nontrivial=True, sample=pay if k == 0 else None)
+        got, err = [], None
+        p = fx.proxy("relay", serializer=cfg["serializer"], timeout=10.0)
+        try:
+            it = p.relay(key, peek)
+            try:
+                for x in it:
+                    got.append(normalise(x))
+            except Exception as x:
+                err = x
+            finally:
+                try:
+                    it.close()
+                except Exception:
+                    pass
+        except Exception as x:
+            err = x
+        finally:
+            p._pyroRelease()
+            SPECS.pop(key, None)
+        want = [["relayed", [key, i]] for i in range(nitems)]
+        if err is not None or got != want:
+            rec.violation("stream-items-differ:relayed", "a method that reads an item stream from another Pyro object and returns its own generator over it (%d items): the caller received %r%s, the generator yields %r" % (
+                nitems, got, " then %r" % (err,) if err is not None else "", want), pay)
+            return
+        if not fx.wait_until(lambda: not d.streaming_responses, 5.0):
+            rec.violation("forgotten-stream-still-held:relayed", "after the relayed stream and its upstream stream were exhausted the daemon still holds %d stream(s)" % len(d.streaming_responses), pay)
+            d.streaming_responses.clear()
+            return
+        rec.count("relayed_streams_ok")
+
+
 def install_gate(fx):
     """delay point at the entry of the daemon's disconnect handling (thread server only: there the old connection's worker and the new connection's
     worker really run concurrently); armed per connection serial by the 'racing-reconnect' step"""
@@ -903,6 +971,8 @@ def run_shard(shard, rec):
                 concurrent_phase(fx, rec, r, cfg)
         if shard["servertype"] == "multiplex" and shard["streaming"] and bool(shard["lifetime"]) != bool(shard["linger"]):
             natural_housekeeping_phase(fx, vclock, rec, r, cfg, 3 if rec.tier == "quick" else 20)
+        if shard["streaming"] and shard["servertype"] == "thread":
+            relay_phase(fx, rec, r, cfg, 3 if rec.tier == "quick" else 12)
         if shard["streaming"]:
             connected_socket_phase(P, rec, r, cfg, 2 if rec.tier == "quick" else 10)
             cross_thread_close_phase(fx, rec, r, cfg, 2 if rec.tier == "quick" else 10)
